@@ -79,7 +79,8 @@ impl SplittedString<'_> {
     ///
     /// `include_colon` argument controls the inclusion of colon as a trailing meta character.
     pub(crate) fn split(input: &str, include_colon: bool) -> SplittedString {
-        const META: &str = "-]~!@#%&*()_=+[{}'\";<>/?|.,।";
+        // The curved quotes are produced by the Smart Quote feature.
+        const META: &str = "-]~!@#%&*()_=+[{}'\";<>/?|.,।‘’“”";
 
         let first_index = match input.find(|c| !META.contains(c)) {
             Some(i) => i,
